@@ -1,7 +1,12 @@
 """Tie for the concurrent engine: replays each implementation run (client programs +
 the schedule the deterministic scheduler took) on the Lean small-step model and
-compares the canonical event logs line by line."""
+compares the canonical event logs line by line. Cases that carry `opt stepsnap` also
+print, on both sides, an `s <tree>` line before every `d` line: the canonical rendering of
+the whole structure in the state in which that scheduling decision is taken. These lines
+are compared like any other line, so the ORDER of the writes relative to the parks is
+pinned at every step and not only through the final structure."""
 import os, re, subprocess
+from concurrent.futures import ThreadPoolExecutor
 import vlib
 
 CMODEL = os.path.join(vlib.LEAN, ".lake", "build", "bin", "cmodel")
@@ -29,25 +34,40 @@ def compare(sc, runs, limit=None):
     runs = [r for r in runs if r.get("sched") is not None]
     if limit:
         runs = runs[:limit]
-    f = sc.path("tie.cases")
-    with open(f, "w") as fh:
-        for r in runs:
-            c = [l for l in r["case_lines"] if not l.startswith("strategy") and l != "cend"]
-            fh.write("\n".join(c + ["strategy replay " + r["sched"], "cend"]) + "\n")
-    with open(f) as fin:
-        p = subprocess.run([CMODEL], stdin=fin, stdout=subprocess.PIPE, stderr=subprocess.PIPE, text=True)
+    # the model is a sequential filter (one case after the other): shard the runs over the
+    # CPUs, contiguous blocks so that the concatenated outputs are in the order of `runs`
+    shards = min(vlib.NCPU, max(1, len(runs) // 256))
+    size = -(-len(runs) // shards) if runs else 1
+    blocks = [runs[i:i + size] for i in range(0, len(runs), size)] or [[]]
+
+    def one(i):
+        f = sc.path("tie.%d.cases" % i)
+        with open(f, "w") as fh:
+            for r in blocks[i]:
+                c = [l for l in r["case_lines"] if not l.startswith("strategy") and l != "cend"]
+                fh.write("\n".join(c + ["strategy replay " + r["sched"], "cend"]) + "\n")
+        with open(f) as fin:
+            return subprocess.run([CMODEL], stdin=fin, stdout=subprocess.PIPE, stderr=subprocess.PIPE, text=True)
+
+    with ThreadPoolExecutor(max_workers=len(blocks)) as ex:
+        procs = list(ex.map(one, range(len(blocks))))
     outs, cur = [], None
-    for l in p.stdout.splitlines():
-        if l.startswith("case "):
-            cur = []
-        elif l == "cend":
-            outs.append(cur)
-            cur = None
-        elif cur is not None:
-            cur.append(l)
-    res = dict(compared=0, mismatches=0, mismatch=None, ranked_states=0, unranked_states=0, unranked_case=None)
-    if p.returncode != 0 or len(outs) != len(runs):
-        res["mismatch"] = dict(detail="cmodel produced %d cases for %d runs (exit %d): %s" % (len(outs), len(runs), p.returncode, p.stderr[-500:]))
+    for p in procs:
+        cur = None
+        for l in p.stdout.splitlines():
+            if l.startswith("case "):
+                cur = []
+            elif l == "cend":
+                outs.append(cur)
+                cur = None
+            elif cur is not None:
+                cur.append(l)
+    bad = [p for p in procs if p.returncode != 0]
+    res = dict(compared=0, mismatches=0, mismatch=None, ranked_states=0, unranked_states=0, unranked_case=None,
+               stepsnap_runs=0, stepsnap_lines_compared=0)
+    if bad or len(outs) != len(runs):
+        res["mismatch"] = dict(detail="cmodel produced %d cases for %d runs (exit %s): %s" % (
+            len(outs), len(runs), [p.returncode for p in procs], (bad[0] if bad else procs[0]).stderr[-500:]))
         res["mismatches"] = 1
         return res
     for r, mo in zip(runs, outs):
@@ -61,13 +81,21 @@ def compare(sc, runs, limit=None):
         io = norm(r["lines"])
         mo = norm(mo)
         res["compared"] += 1
-        if io != mo:
+        if io == mo:
+            ns = sum(1 for l in io if l.startswith("s "))
+            res["stepsnap_lines_compared"] += ns
+            res["stepsnap_runs"] += 1 if ns else 0
+        else:
             res["mismatches"] += 1
+            j = 0
+            while j < min(len(io), len(mo)) and io[j] == mo[j]:
+                j += 1
+            ns = sum(1 for l in io[:j] if l.startswith("s "))
+            res["stepsnap_lines_compared"] += ns
+            res["stepsnap_runs"] += 1 if ns else 0
             if res["mismatch"] is None:
-                j = 0
-                while j < min(len(io), len(mo)) and io[j] == mo[j]:
-                    j += 1
-                res["mismatch"] = dict(case=[l for l in r["case_lines"] if not l.startswith("strategy") and l != "cend"] + ["strategy replay " + r["sched"], "cend"],
+                kind = (io[j] if j < len(io) else (mo[j] if j < len(mo) else "?")).split(" ", 1)[0]
+                res["mismatch"] = dict(line_kind=kind, case=[l for l in r["case_lines"] if not l.startswith("strategy") and l != "cend"] + ["strategy replay " + r["sched"], "cend"],
                                        at=j, impl=io[max(0, j - 3): j + 3], model=mo[max(0, j - 3): j + 3],
                                        oracles=r.get("oracles"))
     return res
